@@ -89,7 +89,9 @@ void search<T, ES>::tune_parameters()
     prob_.env.mep.code_length = dflt.mep.code_length;
 
   if (!constrained.mep.patch_length)
-    prob_.env.mep.patch_length = 1 + prob_.sset.terminals(0) / 2;
+    prob_.env.mep.patch_length =
+      std::min<std::size_t>(1 + prob_.sset.terminals(0) / 2,
+                            prob_.env.mep.code_length - 1);
 
   if (constrained.elitism == trilean::unknown)
     prob_.env.elitism = dflt.elitism;
